@@ -11,7 +11,7 @@ Proof. intros s m x old n HA H R K Hn Hin. apply set_type_accepted_iff; try assu
 
 Lemma frame_positions_f : forall s o y, InvA s -> InvM s -> InvR s -> ok_op_f s o ->
   rel (fst (step s o)) y <> rel s y -> may_move s o y.
-Proof. intros s o y HA H R Hf. apply frame_positions_partial; [exact HA|]. apply ok_op_of_f; assumption. Qed.
+Proof. intros s o y HA H R Hf. apply frame_positions; [exact HA|]. apply ok_op_of_f; assumption. Qed.
 
 (* --- T2 for the size-changing operations, under the invariants and the final hypotheses ----------- *)
 
@@ -63,3 +63,8 @@ Lemma mux_shift_right_spec_f : forall s u x a, InvA s -> InvM s ->
           rel (fst (step_mux_shift false s u x a)) x = right_target s (mux_gsize s u) (gget s u (Z.to_nat g)) x a /\ 0 <= d <= a)
     /\ ((forall g, ~ mux_moves s u x a g) -> d = 0).
 Proof. intros s u x a HA H. apply mux_shift_right_spec; [exact HA|apply mux_ids_nonempty; exact H]. Qed.
+
+Lemma frame_order_f : forall s o L y z, InvA s -> InvM s -> InvR s -> ok_op_f s o ->
+  In y (lay s L) -> In z (lay s L) -> In y (lay (fst (step s o)) L) -> In z (lay (fst (step s o)) L) ->
+  (rel s y < rel s z <-> rel (fst (step s o)) y < rel (fst (step s o)) z).
+Proof. intros s o L y z HA H R Hf. apply frame_order; [exact HA|]. apply ok_op_of_f; assumption. Qed.
